@@ -15,7 +15,7 @@ from fractions import Fraction
 
 from .. import tae_conf
 from ..common import guards, short, src_fn, where, find_nodes
-from ..exprs import mentions, strip
+from ..exprs import bool_function, mentions, strip
 from ..mirlib import op_const, op_place, Expr, Program, expr_str
 from ..tae import DIRS, DIR_OFF, TableError, Tables
 
@@ -253,6 +253,27 @@ def merge_rules(run, R):
                 run.ok(R, "merge is guarded by can_merge", where(g[0]), nontrivial=False)
             else:
                 run.bad(R, "merge-unguarded", where(b), "Line::merge does not consult can_merge")
+            # ... and by nothing else: whether two lines are merged is exactly can_merge(self, other), whatever the order in
+            # which the sweep presents them (it only ever tries earlier.merge(later), in cell order, not geometric order)
+            def atom(c):
+                if c[0] == "call" and c[1] == cm and [strip(a) for a in c[2]] == [("param", 1, ()), ("param", 2, ())]:
+                    return "can_merge"
+                return None
+
+            def is_some(r_):
+                r_ = strip(r_)
+                if r_[0] == "agg" and r_[2] in ("Some", "None"):
+                    return r_[2] == "Some"
+                return None
+            atoms, table = bool_function(prog, lm, atom, keep=re.escape(cm) + "$", result=is_some, free=True)
+            if atoms is None:
+                run.bad(R, "merge-extra-condition", where(b), "whether Line::merge merges is not decided by can_merge(self, other) alone: %s" % table)
+            elif "can_merge" in atoms and all(v == k[atoms.index("can_merge")] for k, v in table.items()):
+                run.ok(R, "Line::merge returns Some exactly when can_merge(self, other)", where(b))
+            else:
+                others = [a for a in atoms if a != "can_merge" and any(table[k] != table[k[:i] + (not k[i],) + k[i + 1:]] for k in table for i in [atoms.index(a)])]
+                run.bad(R, "merge-extra-condition", where(b), "whether Line::merge merges also depends on %s: lines that can_merge says belong together stay separate (or the reverse) "
+                        "depending on the order in which the sweep presents them" % (", ".join("`%s`" % a.lstrip("?") for a in others) or "more than can_merge"))
             it = src_fn(run, "fragment/line.rs", "can_merge", impl_self="Line")
             if it is not None:
                 txt = []
